@@ -407,7 +407,12 @@ func RunWith[C any](t *testing.T, r *Rec, gen func(*rapid.T) C, check func(C) Ve
 		if o.Journal {
 			journal(o, raw)
 		}
+		t0 := time.Now()
 		v := safeCheck(check, c)
+		if ms, _ := strconv.Atoi(os.Getenv("VERIF_SLOW_MS")); ms > 0 && time.Since(t0) > time.Duration(ms)*time.Millisecond {
+			// development aid: which generated cases are expensive
+			fmt.Fprintf(os.Stderr, "SLOW %v: %s\n", time.Since(t0), Trunc(string(raw), 3000))
+		}
 		r.record(raw, &v)
 		if v.Skip {
 			return
